@@ -4,8 +4,7 @@
    Definitions only; the proofs are in Proofs/ConfigP.v.
 
    Go library functions modelled here (not verified): strings.TrimSpace (Unicode-exact on
-   bytes), strings.SplitN(_, "=", 2), strings.ToUpper as far as the comparison with an ASCII
-   key can see, bufio.ScanLines (lines shorter than the 64 KiB token limit), path.Clean /
+   bytes), strings.SplitN(_, "=", 2), bufio.ScanLines (lines shorter than the 64 KiB token limit), path.Clean /
    IsAbs / Join / Dir (Lib/PathM.v), stat(2)/open(2) path resolution without symbolic links. *)
 From LC Require Import Lib.Bytes Lib.Fields Lib.PathM Gen.Consts.
 Close Scope string_scope.
@@ -56,25 +55,11 @@ Fixpoint rdrop (s : bytes) : bytes :=
   end.
 Definition utrim (s : bytes) : bytes := rev (rdrop (rev (ldrop s))).
 
-(* ------------------------------------------------------------------ strings.ToUpper on a key *)
-(* ASCII letters are upper-cased; the only non-ASCII runes whose upper case is ASCII are
-   U+017F (C5 BF -> 'S') and U+0131 (C4 B1 -> 'I').  Every other byte >= 0x80 is kept: the
-   result is then not an ASCII string, exactly as Go's result (which keeps the rune or
-   writes U+FFFD), so the comparison with the ASCII keys agrees. *)
+(* ------------------------------------------------------------------ asciiUpper *)
+(* config.asciiUpper: the ASCII letters a..z are upper-cased, every other byte is kept *)
 Definition up1 (c : ascii) : ascii :=
   let n := bn c in if (97 <=? n) && (n <=? 122) then nb (n - 32) else c.
-Fixpoint upper_key (s : bytes) : bytes :=
-  match s with
-  | [] => []
-  | a :: r =>
-    match r with
-    | b :: r2 =>
-      if (bn a =? 197) && (bn b =? 191) then nb 83 :: upper_key r2
-      else if (bn a =? 196) && (bn b =? 177) then nb 73 :: upper_key r2
-      else up1 a :: upper_key r
-    | [] => [up1 a]
-    end
-  end.
+Definition upper_key (s : bytes) : bytes := map up1 s.
 
 (* ------------------------------------------------------------------ settings *)
 Definition smap := N -> bytes.                     (* Go: map[int]string, missing = "" *)
@@ -113,9 +98,8 @@ Definition parse_line (tbl : list cf_entry) (raw : bytes) : lres :=
   if isempty l || is_comment l then LSkip else
   let '(k, ov) := split2 (nb 61) l in
   let v := match ov with Some x => utrim x | None => [] end in
-  if isempty v then LSkip else
   match key_lookup tbl (upper_key (utrim k)) with
-  | Some id => LSet id v
+  | Some id => if isempty v then LSkip else LSet id v
   | None => LBad
   end.
 
@@ -251,13 +235,9 @@ Definition load_with (tbl : list cf_entry) (e : env) : outcome :=
   | CDiverge => OTimeout
   | CErr x => OErr x
   | CDone m =>
-    match patch_paths tbl m with
+    match patch_paths tbl (merge m (defaults_of tbl)) with
     | None => OErr ENoAbs
-    | Some m1 =>
-      match patch_paths tbl (merge m1 (defaults_of tbl)) with
-      | None => OErr ENoAbs
-      | Some m2 => OOk (map m2 out_keys)
-      end
+    | Some m2 => OOk (map m2 out_keys)
     end
   end.
 Definition load (e : env) : outcome := load_with CF_settingSetup e.
